@@ -8,7 +8,14 @@
   CURRENT CODE (`Cfg.live`: after /repo fixes 786852c "a box must not carry the same sub transaction twice" and
   609d2a8 "MineBlock never packs a tx that is already on its own branch"), for ALL op sequences from a fresh node that
   satisfy the environment hypotheses `envB` (what consensus guarantees about blocks, heads and stable blocks):
-    * `run_never_panics`            no op panics (ExistTx on the head, GetTxsByBranch, DelOldBlocks, DelTxs, SaveBlock);
+    * `run_never_panics`            no op OF THE MODEL panics (ExistTx on the head, GetTxsByBranch, DelOldBlocks, DelTxs,
+                                    SaveBlock).  LIMIT: the op `ask` reads the head and asks the guard ATOMICALLY; Go
+                                    (api.go SendTx, protocol_manager.go handleTxsMsg) does `CurrentBlock()` and then
+                                    `ExistTx(thatBlock.Hash(), tx)` with no lock (the entry goroutines never take
+                                    `chainLock`), so a whole `InsertConfirms` can run between the two reads.  That
+                                    two-read race is NOT an op sequence of this machine: `stale_head_ask_panics` below is a
+                                    kernel-checked state in which the guard PANICS for the head an entry goroutine may
+                                    still hold (found by the round-8 review, not reproduced on the engine);
     * `mined_block_passes_verify`   FULL: in every reachable state the block MineBlock assembles — whatever the pool
                                     holds, whatever the assembler skips or throws out — passes `verifyTxs` (the check every
                                     other node runs, and the miner does not run on its own block);
@@ -100,9 +107,12 @@ theorem reachable_base {cfg : Cfg} {gen : Block} {ops : List Op} {s : State} (he
   subst h0'
   exact run_base ops s0 s hb0 (henv.2 s0 h0) (hd.imp id (fun c => c s0 h0)) hrun
 
-/-- **run_never_panics** (current code): a node started on a genesis block survives every op sequence that satisfies the
-    environment hypotheses: `ExistTx(head, ·)` of the entry points and of the miner, `GetTxsByBranch` on a fork switch
-    (never the logged-and-ignored error), `DelOldBlocks`, `DelTxs`, `SaveBlock` all return. -/
+/-- **run_never_panics** (current code): the MODEL of a node started on a genesis block survives every op sequence that
+    satisfies the environment hypotheses: `ExistTx(head, ·)` of the miner and of the ATOMIC entry op `ask` (head read and
+    guard call in one step), `GetTxsByBranch` on a fork switch (never the logged-and-ignored error), `DelOldBlocks`,
+    `DelTxs`, `SaveBlock` all return.  It says nothing about an entry goroutine whose `CurrentBlock()` read and `ExistTx`
+    call are separated by other ops, as the Go code allows (no lock): see `stale_head_ask_panics`.  Nor are the early
+    error returns of MineBlock / saveNewBlock ops of the machine (PoolGuard.lean `mine` always saves). -/
 theorem run_never_panics {gen : Block} {ops : List Op} (henv : EnvRun Cfg.live gen ops) :
     ∃ s, Reachable Cfg.live gen ops s := by
   obtain ⟨s0, h0, hb0, _⟩ := init_ok Cfg.live henv.1
@@ -252,6 +262,33 @@ theorem pool_clean_refuted :
       (∃ r, assemble Cfg.live s 3 100020 [] [] = some r ∧ r.2.txs = [] ∧ Pool.live r.1 = [] ∧
         verifyTxs true s.g r.2 = .ok true) :=
   ⟨envRun_iff.2 (by decide), fun h => absurd (cleanRun_iff.1 h) (by decide), by decide⟩
+
+/-! ### outside the op machine: the two unlocked reads of an entry goroutine (round-8 review, M-C04-1) -/
+
+def t9 : Tx := { txId := 9, content := 9, exp := 103500 }
+/-- the head: a block 50 minutes old (a stalled chain) -/
+def blkH : Block := ⟨2, 1, 1, 100001, []⟩
+/-- its late sibling carrying `t9`; a confirm makes it stable and cuts the head's fork -/
+def blkS : Block := ⟨3, 1, 1, 103000, [t9]⟩
+def staleOps : List Op := [.insert blkH false blkH, .insert blkS false blkH, .confirm blkS blkS]
+
+set_option maxRecDepth 16000 in
+/-- **stale_head_ask_panics** (current code; a statement about the MODEL's guard, NOT a run of the op machine and NOT
+    reproduced on the real engine): the op `ask` evaluates `s.g.existTxs s.head.hash` in one step, Go reads
+    `CurrentBlock()` first and calls `ExistTx(thatHash, tx)` later without any lock.  After the first two ops the head is
+    block 2 and the guard answers `false` for `t9` on it; the run satisfies the environment hypotheses; after the
+    `confirm` (stable = head = block 3, `DelOldBlocks(103000)` has dropped blocks 1 and 2 from the cache) the guard
+    PANICS when asked about `t9` (valid at clock 103001, traced to the cached block 3) on the OLD head 2 — Go:
+    `SliceOnFork` → `ErrNotFoundBlockCache` → `panic(err)` in `IsAppearedOnFork` — while the atomic `ask` of the model
+    (new head 3) answers `true`.  So `run_never_panics` does not exclude this panic of an entry goroutine that read the
+    head before the confirm (in `handleTxsMsg` a bare goroutine: unrecovered). -/
+theorem stale_head_ask_panics :
+    EnvRun Cfg.live gen0 staleOps ∧
+    (∃ s, runFrom Cfg.live gen0 (staleOps.take 2) = some s ∧ s.head.hash = 2 ∧ s.g.existTxs 2 [t9] = .ok false) ∧
+    ∃ s, runFrom Cfg.live gen0 staleOps = some s ∧ s.head.hash = 3 ∧ s.stable.hash = 3 ∧
+      validBody Cfg.live t9 103001 = true ∧
+      s.g.existTxs 2 [t9] = .panic ∧ s.g.existTxs s.head.hash [t9] = .ok true :=
+  ⟨envRun_iff.2 (by decide), by decide, by decide⟩
 
 /-- the code between the two fixes (`checkBoxTx` repaired, the miner not yet asking the guard) and the code before both -/
 def Cfg.before609d2a8 : Cfg := ⟨true, false⟩
